@@ -249,6 +249,14 @@ def run(P: Program, R: Report, tier: str) -> None:
     builder_protocol(P, R, "R12.9")
     # ---- R12.10 combining columns of different dtypes promotes, never casts to the first column's dtype
     combination_promotes(P, R, "R12.10")
+    # ---- R12.11 (= R14.8) the missing-value mask of a source property travels with its values
+    from .c14 import missing_mask_passthrough
+
+    missing_mask_passthrough(P, R, "R12.11")
+    # ---- R12.12 the names offered for mapping are the source's own
+    header_names_are_the_tables(P, R, "R12.12")
+    # ---- R12.13 integer ids are imported as they are
+    integer_ids_are_kept(P, R, "R12.13")
 
 
 def source_id_truthiness(P: Program, R: Report, rule: str) -> None:
@@ -476,3 +484,77 @@ def combination_promotes(P: Program, R: Report, rule: str) -> None:
                         R.undecided(rule, f, s, label, f"`{nm}` with an explicit dtype `{norm(dt)}`")
     if n == 0:
         R.undecided(rule, "import_export", "", "combined property arrays keep the values of every column", "no combination site recognised")
+
+
+def header_names_are_the_tables(P: Program, R: Report, rule: str) -> None:
+    """`read_header` offers the source's column / property names for mapping, and validation compares the name map with
+    that list; `load_source` then looks the mapped names up in the source itself.  The offered list is the source's own
+    names: a per-name normalisation (strip, lower, ...) applied on one side only makes validation accept a name the
+    loader will not find (the column is skipped silently) and reject the exact name."""
+    STR_METHODS = {"strip", "lstrip", "rstrip", "lower", "upper", "casefold", "title", "replace", "capitalize"}
+    n = 0
+    for ci in P.subclasses("TracksBuilder"):
+        rh = ci.methods.get("read_header")
+        if rh is None:
+            continue
+        for st in ast.walk(rh.node):
+            if not (isinstance(st, ast.Assign) and any(isinstance(t, ast.Attribute) and norm(t.value) == "self" and t.attr.startswith("importable_") for t in st.targets)):
+                continue
+            v = st.value
+            if isinstance(v, (ast.List, ast.Tuple)) and not v.elts:
+                continue
+            n += 1
+            label = f"{rh.short}: the names offered for mapping are the source's own names"
+            transformed = [c for c in ast.walk(v) if isinstance(c, ast.Call) and isinstance(c.func, ast.Attribute) and c.func.attr in STR_METHODS] + [
+                a for a in ast.walk(v) if isinstance(a, ast.Attribute) and a.attr == "str"]
+            if transformed:
+                R.fail(rule, rh, st, label, f"`{norm(transformed[0])[:50]}` rewrites the names: validation then checks the name map against names that load_source will not "
+                       "find in the table - a mapped column is skipped silently instead of the table being rejected")
+            elif isinstance(v, (ast.ListComp, ast.GeneratorExp)) and not (isinstance(v.elt, ast.Name)):
+                R.undecided(rule, rh, st, label, f"names are computed: `{norm(v)[:60]}`")
+            else:
+                R.ok(rule, rh, st, label, f"`{norm(v)[:60]}`", via="provenance")
+    if n == 0:
+        R.undecided(rule, "TracksBuilder subclasses", "", "the names offered for mapping are the source's own names", "no read_header assigning importable_* found")
+
+
+def integer_ids_are_kept(P: Program, R: Report, rule: str) -> None:
+    """The nodes of an imported table are exactly the source ids; only ids that are not integers are renumbered.
+    The statement that rewrites the id column is therefore guarded by a test on the id column alone: a guard that also
+    looks at another column (a parent column that pandas read as float because roots are blank) renumbers perfectly good
+    integer ids in row order - a no-op for ids 1..N, a silent renaming of every node otherwise."""
+    from ..resolve import Resolver
+    from .util import guards_of
+
+    fns = [f for f in P.functions.values() if ".import_export." in f.qname and f.parent is None]
+    n = 0
+    for f in fns:
+        rs = None
+        for st in ast.walk(f.node):
+            if not (isinstance(st, ast.Assign) and isinstance(st.targets[0], ast.Subscript) and norm(st.targets[0].slice).strip("'\"") == "id"
+                    and isinstance(st.value, ast.Call) and isinstance(st.value.func, ast.Attribute) and st.value.func.attr in ("map", "replace", "apply")):
+                continue
+            n += 1
+            rs = rs or Resolver(P, f)
+            label = f"{f.short}: the id column is renumbered only because of what the id column holds"
+            gs = guards_of(f, st)
+            cols = set()
+            for gtxt in gs:
+                try:
+                    ge = rs.expand(ast.parse(gtxt, mode="eval").body)
+                except SyntaxError:
+                    continue
+                for x in ast.walk(ge):
+                    if isinstance(x, ast.Subscript) and isinstance(x.slice, ast.Constant) and isinstance(x.slice.value, str):
+                        cols.add(x.slice.value)
+            if not gs:
+                R.fail(rule, f, st, label, f"`{norm(st)[:60]}` runs unconditionally: integer ids are renumbered too")
+            elif cols == {"id"}:
+                R.ok(rule, f, st, label, f"guard(s) {gs} look at the id column only", via="dominating-guard")
+            elif cols - {"id"}:
+                R.fail(rule, f, st, label, f"the renumbering also depends on column(s) {sorted(cols - {'id'})}: a table with integer ids is renumbered 1..N in row order "
+                       "whenever that other column is not integer-typed (blank root cells make pandas read parent ids as float) - node ids and links are renamed")
+            else:
+                R.undecided(rule, f, st, label, f"guards {gs} not recognised")
+    if n == 0:
+        R.undecided(rule, "import_export", "", "the id column is renumbered only when its ids are not integers", "renumbering statement not found")
